@@ -150,15 +150,17 @@ func FloatAsSigned[S constraints.Float, D constraints.Signed](src *Buffer[S], ds
 	for i := 0; i < length; i++ {
 		var sample D
 		if f := float64(src.Sample(i)); f > 0 {
-			// detect overflow
-			if D(f) == 0 {
+			// clip values above the range
+			if f < 1 {
 				sample = D(f * float64(msv))
 			} else {
 				sample = msv
 			}
-		} else {
-			// no overflow here
+		} else if f > -1 {
 			sample = D(f * (float64(msv) + 1))
+		} else {
+			// clip values below the range
+			sample = -msv - 1
 		}
 		dst.SetSample(i, sample)
 	}
@@ -183,15 +185,17 @@ func FloatAsUnsigned[S constraints.Float, D constraints.Unsigned](src *Buffer[S]
 	for i := 0; i < length; i++ {
 		var sample D
 		if f := float64(src.Sample(i)); f > 0 {
-			// detect overflow
-			if int64(f) == 0 {
+			// clip values above the range
+			if f < 1 {
 				sample = D(f*float64(msv)) + offset
 			} else {
 				sample = msv + offset
 			}
+		} else if f > -1 {
+			sample = offset - D(-f*(float64(msv)+1))
 		} else {
-			// no overflow here
-			sample = D(f*(float64(msv)+1)) + offset
+			// clip values below the range
+			sample = 0
 		}
 		dst.SetSample(i, sample)
 	}
